@@ -18,7 +18,9 @@ def outcome(fn, *a):
 
 class Env:
     """objects of one history: A (long-lived), B (sibling), created lazily by the kind's factory"""
-    def __init__(self, factory): self.factory = factory; self._a = None; self._b = None; self.extra = {}
+    def __init__(self, factory, eager=False):
+        self.factory = factory; self._a = None; self._b = None; self.extra = {}
+        if eager: self.A; self.B            # both objects exist BEFORE the first call of the history (a foreign instance built later must not reach into them)
     @property
     def A(self):
         if self._a is None: self._a = self.factory()
@@ -60,12 +62,12 @@ def kinds():
         ('call M1', True, lambda e: e.A(M1)), ('call M2 bitlen', True, lambda e: e.A(M2, 143)), ('call M1 r=136', True, lambda e: e.A(M1, None, 136)),
         ('overlong with r=136', False, lambda e: e.A(b'ab', 17, 136)), ('sibling M1', True, lambda e: e.B(M1)), ('duplex', False, lambda e: e.A.duplex(b'a', 3, 8))])
     def md6f():
-        h = md.MD6(256, b'key', 64); h.rounds = 2; return h
+        h = md.MD6(256, b'key', 64); h.rounds = 6; return h            # >= 6 rounds: fewer do not carry every input word (key, control word) into the digest
     K['MD6'] = (md6f, [
         ('call M1', True, lambda e: e.A(M1)), ('call M3 bitlen', True, lambda e: e.A(M3, 8 * len(M3) - 3)), ('overlong', False, lambda e: e.A(b'ab', 17)),
         ('call empty', True, lambda e: e.A(b'')), ('sibling M1', True, lambda e: e.B(M1)), ('call long', True, lambda e: e.A(M3 * 7))])
     def md6s():
-        h = md.MD6(256, b'', 0); h.rounds = 2; return h
+        h = md.MD6(256, b'', 0); h.rounds = 6; return h
     K['MD6-seq'] = (md6s, [
         ('call M1', True, lambda e: e.A(M1)), ('call M3*4 bitlen', True, lambda e: e.A(M3 * 4, 8 * len(M3 * 4) - 3)), ('overlong', False, lambda e: e.A(b'ab', 17)),
         ('call empty', True, lambda e: e.A(b'')), ('sibling M1', True, lambda e: e.B(M1)), ('call long', True, lambda e: e.A(M3 * 7))])
@@ -144,8 +146,33 @@ def kinds():
         'CBC-nopad': lambda e: mode.CBC(aes.AES(BLK(16)), BLK(16)).enc(M2), 'CTR': lambda e: mode.CTR(des.DES(BLK(8)), BLK(8)).enc(M2), 'CTS_ECB': lambda e: mode.CTS_ECB(des.DES(BLK(8))).enc(M2),
         'CTS_CBC': lambda e: mode.CTS_CBC(des.DES(BLK(8)), BLK(8)).enc(M2),
         'Salsa20': lambda e: salsa20.Salsa20(Bits(BLK(16), bitorder=1), 20).enc(Bits(BLK(8), bitorder=1), M2), 'Chacha': lambda e: chacha.Chacha(Bits(BLK(16), bitorder=1), 8).enc(Bits(BLK(8), bitorder=1), M2)}
+    # ... and a second foreign instance of the SAME shape (same sizes / lengths) that differs only in the secret or in a field that the
+    # object stores nowhere but in its derived state (salt, schema/version, rounds, tweak): templates or caches shared per size show here
+    def md6o(d, key, L, r):
+        h = md.MD6(d, key, L); h.rounds = r; return h
+    K32 = bytes((11 * i + 5) & 255 for i in range(32))
+    other2 = {
+        'SHA1': lambda e: sha.SHA1().update(BLK(64), padding=False), 'SHA0': lambda e: sha.SHA1(0).update(BLK(64), padding=False), 'SHA2-256': lambda e: sha.SHA2(256).update(BLK(64), padding=False),
+        'SHA2-512/256': lambda e: sha.SHA2(512, 256).update(BLK(128), padding=False), 'SHA2-384': lambda e: sha.SHA2(384).update(BLK(128), padding=False),
+        'MD4': lambda e: md.MD4().update(BLK(64), padding=False), 'MD5': lambda e: md.MD5().update(BLK(64), padding=False), 'SHA3': lambda e: sha.SHA3(256).duplex(b'zz'),
+        'Keccak': lambda e: keccak.Keccak(b=1600, c=512, len=256)(M2, 13, 1344), 'Keccak-200': lambda e: keccak.Keccak(b=200, r=72, len=64).duplex(b'q', 5, 8),
+        'MD6': lambda e: md6o(256, b'kez', 64, 6)(M2), 'MD6-seq': lambda e: md6o(256, b'k', 0, 6)(M2),
+        'Blake': lambda e: blake.Blake(256)(M2, 99), 'Blake512': lambda e: blake.Blake(512)(M2, 99), 'Blake2b': lambda e: blake.Blake2(512)(M2, salt=BLK(16), outlen=20), 'Blake2s': lambda e: blake.Blake2(256)(M2, pers=BLK(8), outlen=7),
+        'Skein': lambda e: skein.Skein(256, 256, version=2)(M2), 'Skein-mac-long': lambda e: skein.Skein(512, 1024, key=b'secreT', nonce=b'n')(M2), 'Skein-tree': lambda e: skein.Skein(256, 256, Yl=1, Yf=1, Ym=3, schema=b'sha3')(M3),
+        'HMAC': lambda e: hmac.HMAC(sha.SHA2(256), b'key-two')(M2), 'TLSH': lambda e: tlsh.TLSH(128)(D2, True), 'Nilsimsa': lambda e: nilsimsa.Nilsimsa().update(D2),
+        'AES': lambda e: aes.AES(BLK(16)[::-1]).enc(BLK(16)), 'AES-256': lambda e: aes.AES(K32).enc(BLK(16)), 'DES': lambda e: des.DES(K32[:8]).dec(BLK(8)),
+        'TDEA': lambda e: des.TDEA(K32[:24]).enc(BLK(8)), 'Serpent': lambda e: serpent.Serpent(K32[:20]).enc(BLK(16)), 'Threefish': lambda e: threefish.Threefish(BLK(32), K32[:16]).enc(BLK(32)),
+        'ECB': lambda e: mode.ECB(aes.AES(K32[:16])).enc(M1), 'CBC': lambda e: mode.CBC(aes.AES(BLK(16)), K32[:16]).enc(M2), 'ECB-nopad': lambda e: mode.ECB(des.DES(K32[:8]), nopadding).enc(M2[:16]),
+        'CBC-nopad': lambda e: mode.CBC(des.DES(BLK(8)), K32[:8], nopadding).enc(M2[:16]), 'CTR': lambda e: mode.CTR(aes.AES(BLK(16)), K32[:16]).enc(M2), 'CTS_ECB': lambda e: mode.CTS_ECB(aes.AES(K32[:16])).enc(M2),
+        'CTS_CBC': lambda e: mode.CTS_CBC(aes.AES(BLK(16)), K32[:16]).enc(M2),
+        'Salsa20': lambda e: salsa20.Salsa20(Bits(K32, bitorder=1), 12).enc(Bits(BLK(8), bitorder=1), M2), 'Chacha': lambda e: chacha.Chacha(Bits(K32, bitorder=1), 12).enc(Bits(BLK(8), bitorder=1), M2)}
+    def both(name):
+        def f(e):
+            try: other[name](e)
+            finally: other2[name](e)
+        return f
     for name in K:
-        K[name][1].append(('other configuration instance', False, other[name]))
+        K[name][1].append(('other configuration instances (different shape; same shape with another secret)', False, both(name)))
     return K
 
 FRESH = {}
@@ -194,7 +221,9 @@ def run(ctx):
         if big and D == 4: use = [s for i, s in enumerate(use) if len(s) < 4 or i % 3 == 0]        # depth 4: every third sequence
         # sequences that START with the differently configured instance go first: then that instance is the first of its class
         # to run in its process (a cache keyed on too little is filled by it and met by the long-lived object afterwards)
-        jobs.append((name, sorted(use, key=lambda q: (q[0] != 7, len(q)))))
+        use = sorted(use, key=lambda q: (q[0] != 7, len(q)))
+        # every history twice: objects created lazily at their first use (a foreign instance may run before A exists) and eagerly before the first call
+        jobs.append((name, use + [[-q[0]] + list(q[1:]) for q in use]))
     for name, res in replay_kinds(ctx, jobs):
         alpha = K[name][1]
         tab = [dict(key=name + '/' + lab, out=FRESH[name][lab]) for lab, judged, fn in alpha]
@@ -202,6 +231,7 @@ def run(ctx):
         for s, outs in res:
             evs = []
             for c, o in zip(s, outs):
+                c = abs(c)
                 lab, judged, fn = alpha[c - 1]; key = name + '/' + lab
                 evs.append(dict(key=key, judged=bool(judged and fresh[key].startswith('ok:')), out=o))
             traces.append(dict(tab=tab, ev=evs, kind=name, seq=s)); ctx.mark((name, str(s)))
@@ -217,10 +247,10 @@ def run(ctx):
             t = traces[a + tid - 1]; alpha = K[t['kind']][1]
             for rec in recs:
                 e = t['ev'][rec['step'] - 1]
-                prior = [alpha[c - 1][0] for c in t['seq'][:rec['step'] - 1]]
-                attrs = dict(kind=t['kind'], call=e['key'].split('/', 1)[1], after=sorted(set(prior)), raised=(e['out'] if e['out'].startswith('raise:') else ''))
+                prior = [alpha[abs(c) - 1][0] for c in t['seq'][:rec['step'] - 1]]
+                attrs = dict(kind=t['kind'], call=e['key'].split('/', 1)[1], after=sorted(set(prior)), eager=t['seq'][0] < 0, raised=(e['out'] if e['out'].startswith('raise:') else ''))
                 ctx.violation('objects.' + t['kind'], ('raises:' + e['out'][6:]) if e['out'].startswith('raise:') else 'wrong:value-differs-from-fresh-object', attrs,
-                              dict(kind=t['kind'], sequence=[alpha[c - 1][0] for c in t['seq']], step=rec['step'], observed=e['out'][:200], fresh=rec['bad'][0]['e'][:200]))
+                              dict(kind=t['kind'], objects_created='before the history' if t['seq'][0] < 0 else 'at first use', sequence=[alpha[abs(c) - 1][0] for c in t['seq']], step=rec['step'], observed=e['out'][:200], fresh=rec['bad'][0]['e'][:200]))
     t0 = traces[10]
     def corrupt(t): t['ev'][-1]['out'] = t['ev'][-1]['out'] + '00'; t['ev'][-1]['judged'] = True; return t
     ctx.binding_selftest('trace/Trace_Objects.tla', dict(tab=t0['tab'], ev=t0['ev']), lambda t: len(t['ev']), corrupt, 'Trace_Objects: a result differing from the fresh-object result')
@@ -241,6 +271,7 @@ if __name__ == '__main__':
         factory, alpha = kinds()[sys.argv[2]]
         out = []
         for s in json.load(open(sys.argv[3])):
-            env = Env(factory)
+            eager = bool(s and s[0] < 0); s = [abs(c) for c in s]          # a negative first letter: objects A and B are constructed before the history starts
+            env = Env(factory, eager)
             out.append([outcome(alpha[c - 1][2], env) for c in s])
         print(json.dumps(out))
